@@ -32,7 +32,7 @@ CLOSE_CALLS = {"allclose", "isclose", "array_equal", "array_equiv"}
 # Assigning None to a locked, defined extent un-defines it without raising (and a following assignment
 # then changes the "locked" value).  Reported as information by default: the property quantifies over
 # assignments of values to a fully defined grid.  Set to True to report it as a violation instead.
-UNDEFINE_LOCKED_IS_VIOLATION = False
+UNDEFINE_LOCKED_IS_VIOLATION = True
 
 NONE = ("none",)
 UNK = ("unk",)
